@@ -1,6 +1,13 @@
 package main
 
-import "time"
+import (
+	"fmt"
+	"strings"
+	"time"
+
+	"github.com/kstenerud/go-concise-encoding/ce"
+	"github.com/kstenerud/go-concise-encoding/configuration"
+)
 
 func init() { checks["C13"] = checkC13 }
 
@@ -13,5 +20,79 @@ func checkC13(c *Check) {
 	if c.Tier == "thorough" {
 		n = 7
 	}
+	c13Builder(c)
 	runRulesGen(c, genCfg{Alphabet: "AlphaMarker", MaxLen: n, Lim: defaultLim, Reasons: reasons, Prefix: prefixDoc, Label: "markers", Timeout: 30 * time.Minute, Workers: 8})
+}
+
+// c13Builder: "when a typed or untyped value is built, every reference is replaced by the marked
+// value".  TLC enumerates accepted documents that are lists (up to 7 elements) and maps with
+// markers and forward / backward references at every position; each is encoded (CBE, CTE),
+// unmarshaled untyped and into []interface{}, marshaled again and compared with the original
+// data in which the references have been replaced.
+func c13Builder(c *Check) {
+	docs := genCorpusFrom(c, "AlphaRefs", "FilterRefs", "<<EvBD, EvVer(0), EvList>>", map[string]int{"quick": 8, "thorough": 9}[c.Tier], "reference corpus")
+	mcfg := configuration.New()
+	mcfg.Iterator.RecursionSupport = true
+	forCorpus(c, docs, 1, concOpts{}, func(abs corpusDoc, evs []AEv, cfg *configuration.Configuration) {
+		hasRef := false
+		for _, e := range evs {
+			if e.M == "OnReferenceLocal" {
+				hasRef = true
+			}
+		}
+		if !hasRef || hasCycle(evs) {
+			return
+		}
+		origToks, err := resolveTokens(normStream(evs, normOpts{DropComments: true, DropPadding: true}))
+		if err != nil {
+			return
+		}
+		want := strings.Join(sortMapsInTokens(origToks), " ")
+		for _, format := range []string{"cbe", "cte"} {
+			var doc []byte
+			var rej int
+			if format == "cbe" {
+				doc, rej, _ = encodeCBE(evs, cfg)
+			} else {
+				doc, rej, _ = encodeCTE(evs, cfg)
+			}
+			if rej >= 0 {
+				continue
+			}
+			for _, tmpl := range []interface{}{nil, []interface{}{}} {
+				c.Count(fmt.Sprint("refs", abs.H, format, tmpl == nil), true)
+				var v interface{}
+				var uerr error
+				p, hung := runWithWatchdog(watchdogShort, func() {
+					if format == "cbe" {
+						v, uerr = ce.UnmarshalFromCBEDocument(doc, tmpl, cfg)
+					} else {
+						v, uerr = ce.UnmarshalFromCTEDocument(doc, tmpl, cfg)
+					}
+				})
+				wit := map[string]interface{}{"kind": "refs-built", "format": format, "events": evs, "doc": printable(doc), "typed": tmpl != nil}
+				if p != nil || hung || uerr != nil {
+					c.Violation(fmt.Sprintf("a valid %s document with references cannot be unmarshaled (template %T): %v %v hang=%v; stream %s", format, tmpl, uerr, p, hung, evsString(evs)), wit)
+					continue
+				}
+				back, merr := ce.MarshalToCBEDocument(v, mcfg)
+				if merr != nil {
+					continue
+				}
+				rec := &Recorder{}
+				if ce.NewCBEDecoder(cfg).DecodeDocument(back, ce.NewRules(rec, cfg)) != nil {
+					continue
+				}
+				gotToks, err := resolveTokens(normStream(rec.Evs, normOpts{DropComments: true, DropPadding: true}))
+				if err != nil {
+					continue
+				}
+				if got := strings.Join(sortMapsInTokens(gotToks), " "); got != want {
+					c.Violation(fmt.Sprintf("building the value of a %s document (template %T) does not put the marked value in place of every reference: document says [%s], built value is [%s]; stream %s", format, tmpl, want, got, evsString(evs)), wit)
+					continue
+				}
+				c.AddTraces(1)
+			}
+		}
+	})
 }
